@@ -248,9 +248,14 @@ func TestC15_Matrix(t *testing.T) {
 	})
 }
 
+var c15MatrixCalls int
+
 func c15Matrix(t gen.Fataler, rec *stat.Recorder, cfg c15Config) {
 	{
 		cj, _ := json.Marshal(cfg)
+		c15MatrixCalls++
+		cell := c15MatrixCalls // rotates the path style of every cell from one enumeration to the next
+		home, _ := os.Getwd()
 		for _, mainF := range c15MainFaults {
 			for _, persF := range c15PersonalFaults {
 				for _, backF := range c15BackupFaults {
@@ -261,9 +266,18 @@ func c15Matrix(t gen.Fataler, rec *stat.Recorder, cfg c15Config) {
 					c15Materialise(dir, "commands.yml.backup", backF, []database.Command{{Command: "backup entry", Description: "from the backup file"}})
 					var out c15Outcome
 					label := "in-process"
+					// the same files named in three ways: absolute, relative to the working directory, with a "./"
+					cell++
+					style := []string{"absolute", "relative", "dot-relative"}[cell%3]
+					switch style {
+					case "relative":
+						mp, pp = "commands.yml", "personal.yml"
+					case "dot-relative":
+						mp, pp = "./commands.yml", "./personal.yml"
+					}
 					if mainF == "unreadable" || persF == "unreadable" {
 						label = "child-uid"
-						r := proc.Run(proc.Cmd{Helper: "c15load", Args: []string{mp, pp, string(cj)}, UID: 65534, FSize: -1, Timeout: 60 * time.Second})
+						r := proc.Run(proc.Cmd{Helper: "c15load", Args: []string{mp, pp, string(cj)}, UID: 65534, FSize: -1, Timeout: 60 * time.Second, Dir: dir})
 						i := strings.Index(r.Stdout, "C15OUT ")
 						if i < 0 {
 							os.RemoveAll(dir)
@@ -281,15 +295,19 @@ func c15Matrix(t gen.Fataler, rec *stat.Recorder, cfg c15Config) {
 							t.Fatalf("harness: bad child output %q", line)
 						}
 					} else {
+						if style != "absolute" {
+							os.Chdir(dir)
+						}
 						out = c15Load(mp, pp, cfg)
+						os.Chdir(home)
 					}
 					os.RemoveAll(dir)
 					if msg := c15Judge(mainF, persF, backF, cfg, out); msg != "" {
-						saveCase("C15", "matrix", map[string]any{"test": "TestC15_Matrix", "config": cfg, "main": mainF, "personal": persF, "backup": backF, "outcome": out, "message": msg})
-						t.Fatalf("%s", msg)
+						saveCase("C15", "matrix", map[string]any{"test": "TestC15_Matrix", "config": cfg, "main": mainF, "personal": persF, "backup": backF, "paths": style, "outcome": out, "message": msg})
+						t.Fatalf("%s (paths given as %s: %q, %q)", msg, style, mp, pp)
 					}
 					faulty := !(mainF == "good" && (persF == "absent" || persF == "good") && backF != "malformed")
-					rec.Case(faulty, map[string]any{"main": mainF, "personal": persF, "backup": backF, "config": cfg, "attempts": out.Attempts, "waits_ns": out.DelaysNs, "commands": len(out.Commands)}, label, "main:"+mainF, "personal:"+persF)
+					rec.Case(faulty, map[string]any{"main": mainF, "personal": persF, "backup": backF, "paths": style, "config": cfg, "attempts": out.Attempts, "waits_ns": out.DelaysNs, "commands": len(out.Commands)}, label, "main:"+mainF, "personal:"+persF, "paths:"+style)
 				}
 			}
 		}
@@ -376,6 +394,9 @@ func TestC15_Transient(t *testing.T) {
 		}
 		if out.Attempts < 1 || out.Attempts > cfg.MaxAttempts {
 			t.Fatalf("%d attempts, configured maximum %d (%s)", out.Attempts, cfg.MaxAttempts, where)
+		}
+		if successAt == 0 && k < cfg.MaxAttempts && (then == "repair" || (then == "missing" && which == "personal")) {
+			t.Fatalf("before attempt %d every file was loadable (the %s file %s), yet no attempt succeeded; last error: %s (%s)", k+1, which, map[string]string{"repair": "had been repaired", "missing": "was merely absent"}[then], out.LastErr, where)
 		}
 		if successAt > 0 {
 			want := append([]database.Command{}, c15MainCmds...)
